@@ -13,15 +13,25 @@ Proof. exact Props.C09.C09_reconcile_single. Qed.
 Print Assumptions Props.C09.C09_reconcile_single.
 Goal forall (pd : parsed) (L : lang) (pfx : str), dom_C09 L pfx pd = true ->
   forall (tp : c09_tpos) (form : c09_form) (i' : str), In tp (c09_tposs pd) ->
-    In (form, i') (c09_type_ids (match c9t_pos tp with
-                                 | C9Const => c9t_type tp
-                                 | _ => check_type [] (Proofs.C09Recon.c09_rn pd) [] (c9t_type tp)
-                                 end)) ->
+    In (form, i') (c09_type_ids (check_type [] (Proofs.C09Recon.c09_rn pd) [] (c9t_type tp))) ->
     (In i' (c9t_generics tp) /\ In (form, i') (c09_type_ids (c9t_type tp))) \/
     (exists i e, In (form, i) (c09_type_ids (c9t_type tp)) /\ c09_lookup pd i = Some e /\
                  i' = Proofs.C09Common.c09_pick (c09_type_ref_which form (c9t_pos tp)) (c9e_id e)).
 Proof. exact Props.C09.C09_reconciled_mentions. Qed.
 Print Assumptions Props.C09.C09_reconciled_mentions.
+Goal forall (pd : parsed) (L : lang) (pfx : str), dom_C09 L pfx pd = true ->
+  forall (tp : c09_tpos) (form : c09_form) (i' : str), In tp (c09_tposs pd) ->
+    In (form, i') (c09_type_ids (check_type [] (Proofs.C09Recon.c09_rn pd) [] (c9t_type tp))) ->
+    (In i' (c9t_generics tp) /\ In (form, i') (c09_type_ids (c9t_type tp))) \/
+    (exists i e, In (form, i) (c09_type_ids (c9t_type tp)) /\ c09_lookup pd i = Some e /\ i' = renamed (c9e_id e)).
+Proof. exact Props.C09.C09_reconciled_mentions_renamed. Qed.
+Print Assumptions Props.C09.C09_reconciled_mentions_renamed.
+Goal forall pd : parsed, p_imports pd = [] -> forall c' : rconst,
+    In c' (p_consts (Proofs.C09Recon.c09_reconciled pd)) <->
+    exists c, In c (p_consts pd) /\
+              c' = {| cid := cid c; ctype := check_type [] (Proofs.C09Recon.c09_rn pd) [] (ctype c); cvalue := cvalue c |}.
+Proof. exact Props.C09.C09_reconciled_consts. Qed.
+Print Assumptions Props.C09.C09_reconciled_consts.
 Goal forall (L : lang) (pfx : str) (acrs : list str) (pd : parsed) (obs : c09_obs),
     dom_C09 L pfx pd = true -> known_C09 L pfx acrs pd = None ->
     Proofs.C09Common.c09_shape L pfx pd obs -> good_C09 L pfx pd obs = true.
@@ -143,14 +153,35 @@ Goal forall (L : lang) (pfx : str) (pd : parsed),
     known_C09 L pfx [] pd = None.
 Proof. exact Props.C09.C09_no_rename_no_class. Qed.
 Print Assumptions Props.C09.C09_no_rename_no_class.
-Goal Proofs.C09Witness.c09_witness TypeScript [] [] Proofs.C09Witness.w_prog
-    (ts_file_decls uc_exec Proofs.C09Witness.w_ts (Proofs.C09Recon.c09_reconciled Proofs.C09Witness.w_prog)) "C09-generic-ref" = true.
-Proof. exact Props.C09.C09_generic_ref_refuted. Qed.
-Print Assumptions Props.C09.C09_generic_ref_refuted.
-Goal Proofs.C09Witness.c09_witness TypeScript [] [] Proofs.C09Witness.w_prog_const
-    (ts_file_decls uc_exec Proofs.C09Witness.w_ts (Proofs.C09Recon.c09_reconciled Proofs.C09Witness.w_prog_const)) "C09-const-type" = true.
-Proof. exact Props.C09.C09_const_type_refuted. Qed.
-Print Assumptions Props.C09.C09_const_type_refuted.
+Goal Proofs.C09Witness.c09_pinned TypeScript [] [] Proofs.C09Witness.w_prog
+    (ts_file_decls uc_exec Proofs.C09Witness.w_ts (Proofs.C09Recon.c09_reconciled Proofs.C09Witness.w_prog))
+    {| c9_in := lit "H"; c9_pos := C9Field; c9_name := lit "GRen" |} = true.
+Proof. exact Props.C09.C09_generic_ref_fixed. Qed.
+Print Assumptions Props.C09.C09_generic_ref_fixed.
+Goal Proofs.C09Witness.c09_pinned Python [] [] Proofs.C09Witness.w_prog
+    (py_file_decls uc_exec {| py_type_mappings := []; py_no_version_header := true; py_version := [] |}
+                   (Proofs.C09Recon.c09_reconciled Proofs.C09Witness.w_prog))
+    {| c9_in := lit "H"; c9_pos := C9Field; c9_name := lit "GRen" |} = true.
+Proof. exact Props.C09.C09_generic_ref_fixed_python. Qed.
+Print Assumptions Props.C09.C09_generic_ref_fixed_python.
+Goal Proofs.C09Witness.c09_pinned Swift (lit "OP") [] Proofs.C09Witness.w_prog
+    (sw_file_decls uc_exec {| sw_prefix := lit "OP"; sw_type_mappings := []; sw_default_decorators := []; sw_default_generic_constraints := [];
+                              sw_codablevoid_constraints := []; sw_no_version_header := true; sw_version := [] |}
+                   (Proofs.C09Recon.c09_reconciled Proofs.C09Witness.w_prog))
+    {| c9_in := lit "OPH"; c9_pos := C9Field; c9_name := lit "OPGRen" |} = true.
+Proof. exact Props.C09.C09_generic_ref_fixed_swift. Qed.
+Print Assumptions Props.C09.C09_generic_ref_fixed_swift.
+Goal Proofs.C09Witness.c09_pinned TypeScript [] [] Proofs.C09Witness.w_prog_const
+    (ts_file_decls uc_exec Proofs.C09Witness.w_ts (Proofs.C09Recon.c09_reconciled Proofs.C09Witness.w_prog_const))
+    {| c9_in := lit "LIMIT"; c9_pos := C9Const; c9_name := lit "ARen" |} = true.
+Proof. exact Props.C09.C09_const_type_fixed. Qed.
+Print Assumptions Props.C09.C09_const_type_fixed.
+Goal Proofs.C09Witness.c09_pinned Python [] [] Proofs.C09Witness.w_prog_const
+    (py_file_decls uc_exec {| py_type_mappings := []; py_no_version_header := true; py_version := [] |}
+                   (Proofs.C09Recon.c09_reconciled Proofs.C09Witness.w_prog_const))
+    {| c9_in := lit "LIMIT"; c9_pos := C9Const; c9_name := lit "ARen" |} = true.
+Proof. exact Props.C09.C09_const_type_fixed_python. Qed.
+Print Assumptions Props.C09.C09_const_type_fixed_python.
 Goal Proofs.C09Witness.c09_witness Kotlin (lit "KP") [] Proofs.C09Witness.w_prog
     (kt_file_decls uc_exec Proofs.C09Witness.w_kt (Proofs.C09Recon.c09_reconciled Proofs.C09Witness.w_prog)) "C09-kotlin-enum-parent" = true.
 Proof. exact Props.C09.C09_kotlin_enum_parent_refuted. Qed.
